@@ -360,6 +360,10 @@ class C16Monitor(explore.Monitor):
     return bool(rename_kind(bundle)) and exc is None and bool(group and group.stored)
 
   def classify(self, clause, detail, bundle, history):
+    if "_summary_summary_" in str(detail.get("table", "")) and not detail.get("root"):
+      # a summary table whose SOURCE is itself a summary table (CreateViewSection on a summary
+      # table's ref with group-by columns): accepted by the engine, not followed by renames
+      return "%s:summary-of-a-summary-table" % clause.split(".", 1)[1]
     return "%s:%s" % (clause.split(".", 1)[1], detail.get("root") or detail.get("kind"))
 
 
